@@ -409,6 +409,15 @@ func UtxoValidateInsufficientCollateral(
 			totalCollateral.Add(totalCollateral, amount)
 		}
 	}
+	// The collateral balance is what the collateral inputs hold minus what the
+	// collateral return output gives back (Babbage ledger spec, collBalance).
+	// A return larger than the inputs leaves a negative balance, which is
+	// never sufficient.
+	if collReturn := tx.CollateralReturn(); collReturn != nil {
+		if returnAmount := collReturn.Amount(); returnAmount != nil {
+			totalCollateral.Sub(totalCollateral, returnAmount)
+		}
+	}
 	// The collateral must cover the fee share exactly, with no rounding in
 	// the transaction's favour:
 	// totalCollateral * 100 >= fee * collateralPercentage
